@@ -57,11 +57,16 @@ Kinds == << ("a" :> Score("a", 5, FALSE)),
             ("b" :> Cds(Grp("or", <<B, Id("d", TRUE)>>, FALSE), FALSE)),
             ("a" :> Cds(Grp("and", <<A, Grp("or", <<Id("e", FALSE), Score("d", 10, TRUE)>>, FALSE)>>, FALSE), FALSE)),
             ("b" :> Min(1, {"b"}, FALSE)) @@ ("a" :> Score("a", 0, FALSE)),
+            ("a" :> Cds(Grp("or", <<Grp("and", <<A, D>>, FALSE), Id("e", FALSE)>>, FALSE), FALSE)),
+            ("b" :> Cds(Grp("or", <<Id("e", FALSE), Grp("and", <<B, Id("d", TRUE)>>, FALSE), Id("f", TRUE)>>, FALSE), FALSE)),
             ("a" :> Min(3, {"a", "e", "f"}, FALSE)) @@ ("b" :> Cds(Grp("and", <<Id("b", TRUE), Grp("or", <<D, Id("e", FALSE)>>, TRUE)>>, FALSE), FALSE)) >>
 KindShapes == {<<0, 0>>, <<2, 0>>, <<0, 2>>}
 SingleTrees == {A, Score("a", 5, FALSE), Min(2, {"a", "b", "c"}, FALSE), Min(1, {"a"}, FALSE),
                 Cds(Grp("and", <<A, B>>, FALSE), FALSE), Cds(Grp("or", <<A, Id("b", TRUE)>>, FALSE), FALSE),
-                Cds(Grp("and", <<Id("a", TRUE), Grp("or", <<B, C>>, FALSE)>>, FALSE), FALSE)}
+                Cds(Grp("and", <<Id("a", TRUE), Grp("or", <<B, C>>, FALSE)>>, FALSE), FALSE),
+                Cds(Grp("or", <<A, Grp("and", <<B, C>>, FALSE)>>, FALSE), FALSE),
+                Cds(Grp("or", <<Grp("and", <<A, Id("b", TRUE)>>, FALSE), Grp("and", <<C, D>>, FALSE)>>, FALSE), FALSE),
+                Cds(Grp("and", <<A, Grp("or", <<B, Grp("and", <<C, Id("d", TRUE)>>, FALSE)>>, TRUE)>>, FALSE), FALSE)}
 
 (* sampled depth-3 trees: a depth-2 tree under a further chain *)
 Depth3(op, ng) ==
@@ -101,14 +106,17 @@ ChainFiles(ts, split, explicit) ==
     LET r1 == R("r1", "C", 10, 20, <<>>, RenderTop(ts[1], PlainStyle), <<>>, <<>>)
         r2 == R("r2", "D", 5, 7, <<"r1">>, RenderTop(ts[2], PlainStyle), <<>>, <<>>)
         r3 == R("r3", "C", 3, 1, IF explicit THEN <<"r2", "r1">> ELSE <<"r2">>, RenderTop(ts[3], PlainStyle), <<>>, <<>>)
-    IN  CASE split = 0 -> << r1 \o r2 \o r3 >>
-          [] split = 1 -> << r1, r2 \o r3 >>
-          [] split = 2 -> << r1 \o r2, r3 >>
-          [] split = 3 -> << r1, r2, r3 >>
+        (* r4 names r1 first: what it inherits comes through its second superior *)
+        r4 == R("r4", "D", 2, 4, <<"r1", "r3">>, <<"b">>, <<>>, <<>>)
+    IN  CASE split = 0 -> << r1 \o r2 \o r3 \o r4 >>
+          [] split = 1 -> << r1, r2 \o r3 \o r4 >>
+          [] split = 2 -> << r1 \o r2, r3 \o r4 >>
+          [] split = 3 -> << r1, r2, r3 \o r4 >>
 ChainExp(ts, m) ==
     << [name |-> "r1", category |-> "C", cutoff |-> Scale(10, m[1], m[2]), nbhd |-> Scale(20, m[3], m[4]), superiors |-> {}, ast |-> ts[1], ext |-> NoNode],
        [name |-> "r2", category |-> "D", cutoff |-> Scale(5, m[1], m[2]), nbhd |-> Scale(7, m[3], m[4]), superiors |-> {"r1"}, ast |-> ts[2], ext |-> NoNode],
-       [name |-> "r3", category |-> "C", cutoff |-> Scale(3, m[1], m[2]), nbhd |-> Scale(1, m[3], m[4]), superiors |-> {"r1", "r2"}, ast |-> ts[3], ext |-> NoNode] >>
+       [name |-> "r3", category |-> "C", cutoff |-> Scale(3, m[1], m[2]), nbhd |-> Scale(1, m[3], m[4]), superiors |-> {"r1", "r2"}, ast |-> ts[3], ext |-> NoNode],
+       [name |-> "r4", category |-> "D", cutoff |-> Scale(2, m[1], m[2]), nbhd |-> Scale(4, m[3], m[4]), superiors |-> {"r1", "r2", "r3"}, ast |-> B, ext |-> NoNode] >>
 ChainCases ==
     {Case("chain", ChainFiles(<<Pool[q[1]], Pool[q[2]], Pool[q[3]]>>, split, explicit), m, sep, "denote",
           (q = <<2, 3, 4>> /\ split = 0 /\ m = UnitMult /\ sep = 0 /\ ~explicit)
